@@ -587,17 +587,22 @@ def rand_cfg(rng, sections, allow_extra_pw=False):
     return out
 
 
-def rand_val(rng, f):
+def candidates(f):
+    """Every value the generators assign to a field of this kind (all fit type and validator)."""
     ty = f[1]
     if f[0] == "mac":
-        return rng.choice(["02:70:79:61:74:76", "AA:bb:0c:1D:2e:3F", "00:00:00:00:00:00"])
+        return ["02:70:79:61:74:76", "AA:bb:0c:1D:2e:3F", "00:00:00:00:00:00", "FF:FF:FF:FF:FF:FF", "aa:bb:cc:dd:ee:0f"]
     if ty == "optstr":
-        return rng.choice(TEXT + ["X%d" % rng.randrange(100), rng.choice(IDS)])
+        return TEXT + ["X7", "Ab Cd", " lead", "trail ", "UPPER", "line\nbreak"] + IDS
     if ty == "str":
-        return rng.choice([t for t in TEXT if t is not None] + [f[2], "日本"])
+        return [t for t in TEXT if t is not None] + [f[2], "日本", "Ab Cd", "UPPER:lower", " x "]
     if ty == "int":
-        return rng.choice([0, 1, -1, 7000, 65535, 2 ** 40, f[2]])
-    return rng.choice(ty[1])
+        return [0, 1, -1, 7000, 65535, 2 ** 40, -2 ** 40, f[2]]
+    return list(ty[1])
+
+
+def rand_val(rng, f):
+    return rng.choice(candidates(f))
 
 
 def rand_op(rng, sections, nh, extra_pw):
@@ -809,6 +814,13 @@ def histories(ctx, sections):
             yield ("failed-save", "file", None, pre + [{"op": "get", "cfg": [a]}, {"op": "save"}, setc, f, f, {"op": "changed"}, {"op": "fresh"}, {"op": "load"}, {"op": "changed"}])
             yield ("failed-save", "file", None, pre + [{"op": "get", "cfg": [a]}, f, {"op": "remove", "h": 0}, {"op": "changed"}, f, {"op": "save"}])
             yield ("failed-save", "file", None, pre + [{"op": "get", "cfg": [a]}, {"op": "save"}, setc, f, {"op": "load"}, {"op": "changed"}, {"op": "save"}])
+    # every declared field with every candidate value through save and a load into a fresh storage
+    for sec, fl in sections:
+        for f in fl:
+            for v in candidates(f):
+                yield ("field-roundtrip", "file", None, [
+                    {"op": "get", "cfg": [a]}, {"op": "set", "h": 0, "sec": sec, "key": f[0], "val": v},
+                    {"op": "save"}, {"op": "fresh"}, {"op": "load"}, {"op": "changed"}])
     for how in ("read", "corrupt"):
         lf = {"op": "loadfault", "how": how}
         yield ("failed-load", "file", None, [{"op": "get", "cfg": [a]}, {"op": "save"}, setc, lf, {"op": "changed"}, {"op": "save"}, {"op": "fresh"}, lf, {"op": "changed"}, {"op": "load"}])
